@@ -298,6 +298,12 @@ class MiniEval:
                 return DateDelta(**kwargs)
             raise Undetermined('call of %s' % f.id)
         if isinstance(f, ast.Attribute):
+            if isinstance(f.value, ast.Name) and f.value.id == 'math' and f.attr in ('ceil', 'floor') and len(args) == 1:
+                import math
+                try:
+                    return getattr(math, f.attr)(args[0])
+                except Exception as ex:
+                    raise Undetermined('math.%s failed: %s' % (f.attr, ex))
             # regex.search(P, s) / regex.match(P, s) / P.search(s)
             if f.attr in ('search', 'match') and self.resolver is not None:
                 if isinstance(f.value, ast.Name) and f.value.id in ('regex', 're') and len(e.args) >= 2:
@@ -1012,6 +1018,85 @@ def p(self, reference, swift):
 '''
 
 
+def quarter_tabulate(idx, owner, fn, consts):
+    """relative quarters ('last/this/next quarter'): interpret the roll-over block for reference month 1..12 x swift
+    -1/0/+1 -> {(month, swift): (year, quarter)}; the block is the branch that derives the quarter from reference.month
+    and a get_swift* call; year / quarter locals are read off the first date construction that follows it"""
+    branch, parent_chain = None, None
+    for n in ast.walk(fn):
+        if isinstance(n, ast.If):
+            for body in (n.body, n.orelse):
+                tops = [st for st in body if isinstance(st, ast.Assign) and isinstance(st.value, ast.Call)
+                        and (_callee_name(st.value) or '').startswith('get_swift')]
+                uses_month = any(isinstance(x, ast.Attribute) and x.attr == 'month' and _is_name(x.value, 'reference')
+                                 for st in body for x in ast.walk(st))
+                if tops and uses_month and not any(isinstance(st, ast.If) and st is not n and any(
+                        isinstance(a, ast.Assign) and isinstance(a.value, ast.Call) and (_callee_name(a.value) or '').startswith('get_swift')
+                        for a in st.body) for st in body):
+                    branch = body
+    if branch is None:
+        raise AnalysisError('%s: relative-quarter block (reference.month + get_swift*) not found' % fn.name)
+    swift_var = next(st.targets[0].id for st in branch if isinstance(st, ast.Assign) and isinstance(st.value, ast.Call)
+                     and (_callee_name(st.value) or '').startswith('get_swift') and isinstance(st.targets[0], ast.Name))
+    # year / quarter locals: first call  <ctor>(year, <expr over quarter>, 1) after the block
+    last_line = max(getattr(x, 'lineno', 0) for st in branch for x in ast.walk(st))
+    yv = qv = None
+    for c in sorted((c for c in ast.walk(fn) if isinstance(c, ast.Call) and getattr(c, 'lineno', 0) > last_line
+                     and (_callee_name(c) or '').startswith('safe_create') and len(c.args) >= 3), key=lambda c: c.lineno):
+        if isinstance(c.args[0], ast.Name):
+            assigned = {t.id for a in ast.walk(fn) if isinstance(a, (ast.Assign, ast.AugAssign)) for t in ast.walk(a.targets[0] if isinstance(a, ast.Assign) else a.target) if isinstance(t, ast.Name)}
+            qs = {x.id for x in ast.walk(c.args[1]) if isinstance(x, ast.Name) and x.id in assigned}
+            if len(qs) == 1:
+                yv, qv = c.args[0].id, qs.pop()
+                break
+    if yv is None:
+        raise AnalysisError('%s: year / quarter locals of the quarter range not identified' % fn.name)
+
+    def res(node):
+        if isinstance(node, ast.Attribute) and isinstance(node.value, ast.Name) and node.value.id == 'Constants' and node.attr in consts:
+            return consts[node.attr]
+        raise Undetermined('attribute %s' % ast.unparse(node)[:40])
+
+    out = {}
+    for month in range(1, 13):
+        for sw in (-1, 0, 1):
+            ref = _dt.datetime(2019, month, 15, 12, 0)
+            env = {'reference': ref, yv: ref.year}
+            ev = MiniEval(idx, owner, res)
+            for st in branch:
+                if isinstance(st, ast.Assign) and isinstance(st.value, ast.Call) and (_callee_name(st.value) or '').startswith('get_swift'):
+                    env[st.targets[0].id] = sw
+                    continue
+                try:
+                    ev.block([st], env)
+                except Undetermined as e:
+                    raise AnalysisError('%s: relative-quarter block cannot be interpreted: %s' % (fn.name, e))
+            out[(month, sw)] = (env.get(yv), env.get(qv))
+    return out, (branch[0].lineno if branch else fn.lineno)
+
+
+def quarter_expected(year, month, sw):
+    q0 = (month + 2) // 3 + sw
+    return year + (q0 - 1) // 4, (q0 - 1) % 4 + 1
+
+
+_QUARTER_CONTROL = '''
+def p(self, source, reference):
+    year = reference.year
+    if order_quarter_str:
+        month = reference.month
+        quarter_num = math.ceil(month / Constants.TRIMESTER_MONTH_COUNT)
+        swift = self.config.get_swift_year(order_quarter_str)
+        quarter_num += swift
+        if quarter_num > Constants.QUARTER_COUNT:
+            year += 1
+        elif quarter_num < 0:
+            year -= 1
+        quarter_num = (quarter_num - 1) % Constants.QUARTER_COUNT + 1
+    begin_date = DateUtils.safe_create_date_resolve_overflow(year, ((quarter_num - 1) * 3) + 1, 1)
+'''
+
+
 REF_PERIOD = {'is_week_only': ('days', 7), 'is_weekend': ('days', 7), 'is_month_only': ('months', 1), 'is_year_only': ('years', 1)}
 
 
@@ -1142,6 +1227,8 @@ def run(chk):
     chk.rule('C08.period', 'one-word periods shift by 7*swift days / swift months / swift years', floor=4, control=True)
     chk.rule('C08.weektimex', 'the week TIMEX of this/next/last week names the ISO week-year and ISO week number of one and the same week',
              floor=1, control=True)
+    chk.rule('C08.quarter', "quarter clause: 'last/this/next quarter' is calendar arithmetic on quarters (q0 = ceil(month/3) + swift; "
+             "year += (q0-1)//4; quarter = (q0-1)%4 + 1), tabulated for month 1..12 x swift -1/0/+1", floor=3, control=True)
     chk.rule('C08.wiring', 'next/last/this (and ago/later) slots are wired to regexes of that kind in every culture', floor=50)
     chk.rule('C08.specialday', 'today/tomorrow/yesterday lexicon evaluates to 0/+1/-1 (+-2) through get_swift_day', floor=30, control=True)
     chk.rule('C08.relperiod', 'this/next/last week|month|year phrases evaluate to the right unit predicate and swift in every culture',
@@ -1354,6 +1441,24 @@ def run(chk):
     ctl = ast.parse(_WEEKTIMEX_CONTROL).body[0]
     _, cbad, _ = week_timex_cases(idx, bpp, ctl, 'is_week_only', enum, consts, {'swift'}, 1)
     chk.control('C08.weektimex', bool(cbad))
+
+    # ---- C08.quarter
+    qf = bpp.methods.get('__parse_quarter') or bpp.methods.get('_parse_quarter')
+    if qf is None:
+        raise AnalysisError('anchor vanished: BaseDatePeriodParser.__parse_quarter')
+    qtab, qline = quarter_tabulate(idx, bpp, qf, consts)
+    for sw in (-1, 0, 1):
+        wrong = []
+        for month in range(1, 13):
+            got = qtab[(month, sw)]
+            want_q = quarter_expected(2019, month, sw)
+            if got != want_q:
+                wrong.append('month %d: %s-Q%s (expected %d-Q%d)' % (month, got[0], got[1], want_q[0], want_q[1]))
+        chk.judge(not wrong, 'C08.quarter', bpp.mod.path, 'BaseDatePeriodParser.%s[swift %+d]' % (qf.name, sw),
+                  '12 reference months agree' if not wrong else '; '.join(wrong),
+                  "%s quarter (reference year 2019): %s" % ({-1: 'last', 0: 'this', 1: 'next'}[sw], '; '.join(wrong)), qline)
+    ctab, _ = quarter_tabulate(idx, bpp, ast.parse(_QUARTER_CONTROL).body[0], consts)
+    chk.control('C08.quarter', ctab[(2, -1)] != quarter_expected(2019, 2, -1))
 
     # ---- per culture: wiring, special days, get_swift*
     dp_cfgs = W.culture_classes(DT + 'base_date.DateParserConfiguration')
